@@ -206,7 +206,7 @@ def mat_pool(tier):
                     slices.append(["S", "i", start, stop, step, dtype])
     slices += [["S1", "i", 3], ["S2", "i", 1, 4], ["S3", "i", 1, 5, 2], ["S2", "j", 0, 2]]
     terms += slices
-    ops_ = ("add", "sub", "mul", "mod", "max", "min", "lt", "eq")
+    ops_ = ("add", "mul", "mod", "max", "min", "lt", "eq")  # bounded-integer subtraction leaves the domain: not in the pool
     for op in ops_:
         terms.append(["B", op, i3, N(2, 3)])
         terms.append(["B", op, N(1, 2), i3] if op != "mod" else ["B", op, N(5, 6), ["B", "add", i3, N(1, 2)]])
@@ -218,6 +218,7 @@ def mat_pool(tier):
     terms.append(["B", "mod", ["B", "add", i3, j2], N(2, 3)])
     terms.append(["B", "add", ["T", ["i", "j"], [3, 2]], V("k", 2)])
     terms.append(["B", "mul", ["T", ["j"], [2]], i3])
+    terms.append(["B", "sub", ["T", ["i"], [3]], i3])
     terms.append(["B", "add", ["T", ["j", "i"], [2, 3]], i3])
     terms.append(["I", [2, 0, 1], 3, i3])
     terms.append(["I", [2, 0, 1, 1], 3, ["B", "add", i3, j2]])
